@@ -570,7 +570,11 @@ fn run_case(case: &Case, ctx: &mut Ctx) -> Option<Failure> {
         };
         model.durable.append(&mut model.pending);
         model.header = Hdr::Yes;
-        ctx.ev_u(disk.len() as u64);
+        // the length of a compressed file depends on the hash order in which the library encodes
+        // multi-entry maps, which no seam controls: keep it out of the event log
+        if case.codec == CodecSpec::Null {
+            ctx.ev_u(disk.len() as u64);
+        }
         ctx.ev_u(model.durable.len() as u64);
         let after = if generation.finish == Finish::Drop { "drop" } else { "into_inner" };
         if let Some(f) = check_file(&disk, &model, &env, true, after, gen_no) {
